@@ -6,6 +6,10 @@
            str    [s, len, sets, chops]   cell_len(s); set_cell_size(s, n) -> r for several n;
                                      chop_cells(s, w, pos) -> pieces for several (w, pos)
            hist   [events [s, obs]]  a history of cell_len calls on the process-wide cache
+           mix    [events [op, s, n, pos, obs, r, err]]   a history that mixes the entry points on the process-wide
+                                     caches: op = "len" cell_len(s) -> obs | "seg" Segment(s).cell_length -> obs |
+                                     "chr" sum of get_character_cell_size over s -> obs | "set" set_cell_size(s, n) -> r[1] |
+                                     "chop" chop_cells(s, n, pos) -> r; results of earlier calls are measured again later
            table  []                 is the table sorted and disjoint, as the statement assumes?
    An observation of -1000 / err # "" stands for "the call raised".
    Verdict: "ok", the failing property clause, or "drift ..." when only the transcription
@@ -57,10 +61,21 @@ HistWhy(r) ==
        ELSE "step " \o I2S(j) \o ": result-differs obs=" \o I2S(r.events[j].obs)
             \o " spec=" \o I2S(CellLen(Str(r.events[j].s)))
 
+MixWhy(r) ==
+    LET Why(k) == LET e == r.events[k]  s == Str(e.s) IN
+                  IF e.err # "" THEN "raised"
+                  ELSE IF e.op \in {"len", "seg", "chr"} THEN (IF e.obs = CellLen(s) THEN "ok" ELSE "result-differs")
+                  ELSE IF e.op = "set" THEN SetCellSizeWhy(s, e.n, Str(e.r[1]))
+                  ELSE IF e.op = "chop" THEN ChopWhy(s, e.n, e.pos, Strs(e.r))
+                  ELSE "unknown-op"
+        j == FirstBadIdx(Len(r.events), Why)
+    IN IF j = 0 THEN "ok" ELSE "step " \o I2S(j) \o " " \o r.events[j].op \o ": " \o Why(j)
+
 Verdict(r) == CASE r.k = "slice" -> SliceWhy(r)
                 [] r.k = "cps"   -> CpsWhy(r)
                 [] r.k = "str"   -> StrWhy(r)
                 [] r.k = "hist"  -> HistWhy(r)
+                [] r.k = "mix"   -> MixWhy(r)
                 [] r.k = "table" -> IF TableWellFormed(Table) THEN "ok"
                                     ELSE "drift table: not-sorted-or-overlapping"
                 [] OTHER -> "unknown-record-kind"
